@@ -223,6 +223,10 @@ def describe(case, s, t, labels, spec):
         ctx.add("snk:%s:%s" % (t["kind"], t["pos"]))
     if spec is not None and not spec.get("uniq_names") and len(case["sources"]) + len(case["sinks"]) > 2:
         ctx.add("shared-names")
+        # a loop at module level: the module-level statements after it (the calls that start the other chains) are
+        # analysed up to three times
+        if any(l.startswith(("for ", "while ")) for t in (case.get("files") or {}).values() for l in t.split("\n")):
+            ctx.add("module-level-loop")
     return sorted(ctx), list(labels)
 
 
@@ -237,7 +241,7 @@ def sig_class(desc):
     ctx, seq = desc
     ctx = set(ctx)
     if "shared-names" in ctx:
-        return "shared-names", "-"
+        return "shared-names", ("after-module-level-loop" if "module-level-loop" in ctx else "-")
     stripped = [tg._strip_label(x) for x in seq]
     if "global_import" in stripped:
         ctx.discard("start_mod")
@@ -509,9 +513,16 @@ def is_subsequence(need, seq):
     return all(any(x == y for y in it) for x in need)
 
 
+MODULE_LOOP_MARK = "@several-chains-with-a-module-level-loop"
+
+
 def combo_blocked(case, combos):
     """Is some chain of the case an instance of an open finding (context elements + core sequence / family)?"""
     fam_names = {n for n, _ in tg.FAMILIES}
+    if MODULE_LOOP_MARK in combos:
+        if len(case["chains"]) > 1 and any(l.startswith(("for ", "while ")) for t in case["files"].values() for l in t.split("\n")):
+            return MODULE_LOOP_MARK
+        combos = [c for c in combos if c != MODULE_LOOP_MARK]
     for ci, ch in enumerate(case["chains"]):
         have = set(ch.get("pre", []))
         have.add(ch.get("src_label", "src:" + ch["src"]))
@@ -668,7 +679,9 @@ def step_over_plan(observed):
     fam_names = {n for n, _ in tg.FAMILIES}
     avoid, combos, uniq = set(), [], False
     for cls, detail in sorted(observed):
-        if cls == "shared-names":
+        if cls == "shared-names" and detail == "after-module-level-loop":
+            combos.append(MODULE_LOOP_MARK)     # projects with several chains and a module-level loop are skipped
+        elif cls == "shared-names":
             uniq = True
         elif cls in fam_names:
             avoid.add(cls)
